@@ -67,16 +67,14 @@ Opaque enc_err_kind.
 Theorem prim_val_roundtrip p : dec_prim_val (enc_prim_val p) = Some p.
 Proof.
   destruct p as [t b]. unfold enc_prim_val. simpl pv_ty; simpl pv_bits.
-  destruct t; try reflexivity.
-  - (* Bool *)
-    destruct (Z.eqb_spec b 0) as [->|H0]; [reflexivity|].
-    destruct (Z.eqb_spec b 1) as [->|H1]; [reflexivity|].
-    unfold dec_prim_val; simpl.
-    apply Z.eqb_neq in H0, H1. rewrite H0, H1. reflexivity.
-  - destruct (Z.eqb_spec b 0) as [->|H0]; [reflexivity|].
-    unfold dec_prim_val; simpl. apply Z.eqb_neq in H0. rewrite H0. reflexivity.
-  - destruct (Z.eqb_spec b 0) as [->|H0]; [reflexivity|].
-    unfold dec_prim_val; simpl. apply Z.eqb_neq in H0. rewrite H0. reflexivity.
+  (* the remaining cases (Bool: bits 0 / 1 / other; Ptr, None: bits 0 / other) are handled by one
+     script, so that the proof does not depend on the order of the constructors of [prim_ty]
+     (which is regenerated from the source) *)
+  destruct t; try reflexivity;
+    (destruct (Z.eqb_spec b 0) as [->|H0]; [reflexivity|]);
+    try (destruct (Z.eqb_spec b 1) as [->|H1]; [reflexivity|];
+         unfold dec_prim_val; simpl; apply Z.eqb_neq in H0, H1; rewrite H0, H1; reflexivity);
+    unfold dec_prim_val; simpl; apply Z.eqb_neq in H0; rewrite H0; reflexivity.
 Qed.
 Opaque enc_prim_val.
 
